@@ -31,6 +31,12 @@ def canon_default(d):
         return "req"
     if type(d).__name__ == "ConditionalDefault":
         return "cond"
+    if type(d).__name__ == "UnknownDefault":
+        return [5, 0]
+    if type(d) is list and not d:
+        return [3, 0]
+    if type(d) is dict and not d:
+        return [4, 0]
     if type(d) is int:
         return [0, d]
     if type(d) is float:
